@@ -277,6 +277,30 @@ def r2_getinfo(rep, ctx):
             else:
                 problems.append("returns %s, whose origin is not recognised" % show(a, 80))
         rep.check(not problems, "C05.R2", key, "returned info is selected under a unit fact and a quantity-type fact", "GetInfo " + "; ".join(problems), node=node, fn=fn)
+    # the first direct lookup is made under the quantity type exactly as it was given: a registered quantity type's
+    # own units must not be shadowed by a category that happens to carry the same name (the category resolution
+    # comes second)
+    PQT = ("param", fn.params.index("quantity_type"), "quantity_type")
+    first_ok = None
+    for c in sorted((c for c in own_nodes(fn.node) if isinstance(c, ast.Call)), key=lambda c: (c.lineno, c.col_offset)):
+        h = _getinfo_helper(m, fn, res.term(c))
+        if h is None:
+            continue
+        g, binding = h
+        if g.qual not in helpers_seen:
+            continue
+        qt_p = helpers_seen[g.qual][2]
+        if qt_p is not None:
+            qt_terms = set(alternatives(binding.get(qt_p, ("const", None))))
+        else:
+            at = cfg.node_of(c)
+            reach = {idx for (nm, idx) in res.IN[at] if nm == "quantity_type"} if res.flow else {-1}
+            qt_terms = {PQT} if reach == {-1} else {PQT, ("expr", "reassigned")}
+        if first_ok is None:
+            first_ok = (qt_terms == {PQT}, c)
+    if first_ok is not None:
+        rep.check(first_ok[0], "C05.R2", "GetInfo:first-lookup-as-given", "the first direct lookup uses the quantity type as given",
+                  "the first direct lookup of the unit is made after the quantity type may have been replaced by a category's quantity type: with a category named like another quantity type, that type's own units are looked up in the wrong type", node=first_ok[1], fn=fn)
     rep.floor("C05.R2", "value returns of GetInfo", n, 2)
     # the final fall-through raises InvalidUnitError / InvalidQuantityTypeError
     falls = [x for (x, lab) in cfg.pred[cfg.EXIT] if cfg.kind[x] != "return"]
